@@ -7,22 +7,24 @@ import blockrun as B
 RULE = ("(2 % of the blocks, 8 % in the thorough tier, sit on the scale axis: 255 ... 65537 frames or 15 ... 257 items) " 
         "seeded shape-directed valid blocks of the nine types (0/1/many items, gap patterns incl. first/last/all-missing, "
         "labels of length 0,1,w-2,w-1, extreme floats, both 3D formats, both camera formats, float32 and float64 user arrays, "
-        "both viewport spellings); non-trivial = >=2 items or >=1 gap or links or a None cell or BTS camera format; distinct by value")
+        "both viewport spellings, arrays of four provenances); plus object life cycles: a block is printed/sized/encoded/decoded, edited in place through public attributes "
+        "(sample poked, gap filled, frame blanked, array replaced, label, header field, nested viewport component) and encoded/decoded again, up to 3 times; non-trivial = >=2 items or >=1 gap or links or a None cell or BTS camera format; distinct by value")
 ASSUMPTIONS = ["samples compared as bit patterns after narrowing to the on-disk width (float32/float64); NaN only as wholly-missing frames",
                "channel maps of EMG/Data2D are observed through the object's own encoding (no public accessor exists)"]
 
 
 def judge(ctx, kind, v, opts, r, m):
     rep = dict(kind=kind, v=v, **opts)
+    lc = " [object used, then edited in place: " + "; ".join(opts["life_cycle"]["edits"]) + "]" if opts.get("life_cycle") else ""
     if "exc" in r:
         # a valid block that the library cannot build/encode/decode: the round trip does not exist
-        ctx.fail(f"{kind}: valid block fails at stage {r['stage']}: {r['exc'][:160]}", rep, ident=f"{kind} stage={r['stage']}")
+        ctx.fail(f"{kind}: valid block fails at stage {r['stage']}: {r['exc'][:160]}{lc}", rep, ident=f"{kind} stage={r['stage']}")
         return
     if r["abs0"] != A.norm(v):
         raise RuntimeError(f"harness glue: abs(build(v)) != v for {kind}")
     # oracle: the property itself, on the real code only
     if r["dec_abs"] != A.norm(v):
-        ctx.fail(f"{kind}: decode(encode(x)) differs from x", rep, ident=f"{kind} decode!=original")
+        ctx.fail(f"{kind}: decode(encode(x)) differs from x{lc}", rep, ident=f"{kind} decode!=original" + (" after in-place edit" if lc else ""))
     if r["reenc"] != r["enc"]:
         ctx.fail(f"{kind}: re-encoding the decoded block gives different bytes", rep, ident=f"{kind} re-encode differs")
     # correspondence: the model's encoder/decoder vs the real ones
@@ -46,6 +48,32 @@ def run(ctx):
         ctx.case((kind, v), nontrivial=A.nontrivial(kind, v), sample=dict(kind=kind, v=v) if len(repr(v)) < 700 else None,
                  tags=B.shape_tags(kind, v) + (["f64-input"] if opts["wide"] else []) + ([f"prov={opts['prov']}"] if opts["prov"] else []))
         judge(ctx, kind, v, opts, r, m)
+    life_cycles(ctx, judge, ctx.n(350, 8000))
+
+
+def life_cycles(ctx, judge_fn, n):
+    """the same object used, edited in place through its public attributes, and used again (up to three times): what is
+    written must be the object as it is NOW, whatever was computed for it before"""
+    stages = []
+    for i in range(n):
+        kind = A.KINDS[i % len(A.KINDS)]
+        v0 = A.GEN[kind](ctx.rng)
+        opts = dict(wide=ctx.rng.random() < 0.2, vpstyle=ctx.rng.choice([0, 0, 1]))
+        lc = B.lifecycle(kind, v0, ctx.rng, n_edits=ctx.rng.choice([1, 2, 3]), **opts)
+        history = []
+        for v, what, r in lc[1:]:
+            history = history + [what]
+            if v is None:
+                ctx.fail(f"{kind}: an in-place edit through public attributes raised: {r.get('exc', '')[:120]}", dict(kind=kind, v=v0, edits=history), ident=f"{kind} edit raises")
+                break
+            stages.append((kind, v, dict(opts, life_cycle=dict(start=v0, edits=history)), r))
+    models = B.model_side([(k, v) for k, v, _, _ in stages])
+    for (kind, v, opts, r), m in zip(stages, models):
+        if not m["valid"]:
+            continue          # (an edit that left the block outside the valid domain: not generated on purpose, not judged)
+        ctx.case((kind, v, str(opts["life_cycle"]["edits"])), nontrivial=True, tags=[kind, "life-cycle", "edits=" + str(len(opts["life_cycle"]["edits"]))] +
+                 ["edit:" + e.split(" ")[0] for e in opts["life_cycle"]["edits"][-1:]])
+        judge_fn(ctx, kind, v, opts, r, m)
 
 
 def replay(path):
